@@ -5,6 +5,11 @@ ROOT = os.path.dirname(os.path.dirname(os.path.abspath(__file__)))
 
 TECH = "deterministic simulation with fault injection: "
 CHECKS = {
+ "C17": dict(
+   text="Seeded event histories over all host input sources (keys, compound keys, both Sinclair joysticks, Kempston joystick, mouse buttons/wheel/motion) with heavy overlap on shared matrix positions, double presses and releases of unheld controls; after every event the ports are read back by IN A,(C) executed by the emulated CPU and compared with the RefInputs set model. Sampling, not proof.",
+   note="Only bits 0-4 of ULA reads are compared (EAR belongs to C07/C11); mouse counters compared as deltas; the Sinclair joystick 2 'down' mapping is a recorded known finding and excluded in a quarter of the runs (avoid-known mode).",
+   technique=TECH+"seeded input-event histories on the real machine, read back through the emulated CPU, against a reference set model",
+   ref="5 (C17)"),
  "C05": dict(
    text="Whole-machine simulation: constant-time programs run for K frames under a seeded host driving schedule (FrameCount(n), Max mode stopped by scripted stopwatch readings, breakpoint stops) with an exact T-state conservation equation and interrupt counter, plus INT-window and frame-end single-step probes on both machines. Sampling, not proof.",
    note="Programs run in uncontended RAM so instruction times are the documented ones (C03); arbitrary instruction mixes across frame boundaries are covered by C04's instruction-level runs; uses hooks verif_frame_clocks/verif_set_frame_clocks.",
